@@ -11,6 +11,12 @@ CONFIGS = [("default", {}, "harness"), ("noavx512", {"GODEBUG": "cpu.avx512=off"
 def run(ctx):
     # (MC) design-level model checking, independent of the code under test
     ctx.model_check("C01_field", "MCFieldMachine", workers=8, heap="4g")
+    # word-level transcription of the CIOS / no-carry Montgomery multiplication of the templates
+    ctx.model_check("C01_field", "MCMontgomery", workers=8)
+    ctx.model_check("C01_field", "MCMontgomery", cfg="MCMontgomeryNoCarry", workers=4)
+    ctx.model_check("C01_field", "MCMontgomery", cfg="MCMontgomeryNeg", expect_violation="MulCorrect", workers=4)
+    if ctx.tier == "thorough":
+        ctx.model_check("C01_field", "MCMontgomery", cfg="MCMontgomery3", workers=8)
     # (TV) traces of the real code in every CPU configuration
     bins = {"harness": ctx.build_harness("harness"), "harness_purego": ctx.build_harness("harness_purego", tags=("verif", "purego"))}
     tdir = os.path.join(ctx.work, "traces")
